@@ -58,7 +58,7 @@ func insertAfter(pos, n *node) {
 }
 
 func remove(n *node, table map[int64]*node) {
-	delete(table, n.b.Base())
+	delete(table, n.key)
 	n.prev.next = n.next
 	n.next.prev = n.prev
 	n.next = nil
@@ -91,6 +91,11 @@ type LRU struct {
 
 type node struct {
 	b bgzf.Block
+
+	// key is the base offset the node is stored under in
+	// the table. The Block may since have been given another
+	// base by a Reader that recycles it.
+	key int64
 
 	next, prev *node
 }
@@ -183,7 +188,7 @@ func (c *LRU) Put(b bgzf.Block) (evicted bgzf.Block, retained bool) {
 		d = c.root.prev.b
 		remove(c.root.prev, c.table)
 	}
-	n := &node{b: b}
+	n := &node{b: b, key: b.Base()}
 	c.table[b.Base()] = n
 	if used {
 		insertAfter(&c.root, n)
@@ -307,7 +312,7 @@ func (c *FIFO) Put(b bgzf.Block) (evicted bgzf.Block, retained bool) {
 		d = c.root.prev.b
 		remove(c.root.prev, c.table)
 	}
-	n := &node{b: b}
+	n := &node{b: b, key: b.Base()}
 	c.table[b.Base()] = n
 	if used {
 		insertAfter(&c.root, n)
